@@ -98,7 +98,7 @@ func sopTerm(n *vh.Names, o SOp) string {
 		return "SWalk None"
 	case "walkerr", "walksortederr":
 		return fmt.Sprintf("SWalk (Some %s)", vh.Nat(int(o.V)))
-	case "delcond":
+	case "delcond", "walkdel":
 		return "SDelCond " + n.Path(o.P)
 	case "delete":
 		return "SDelete " + n.Path(o.P)
@@ -122,7 +122,7 @@ func aopTerm(n *vh.Names, o SOp) string {
 		return "AQuery []"
 	case "walkerr", "walksortederr":
 		return "AQueryErr []"
-	case "delcond":
+	case "delcond", "walkdel":
 		return "ADelete " + n.Path(o.P)
 	case "delete":
 		return "ADelete " + n.Path(o.P)
@@ -423,11 +423,17 @@ func scenarios() []scenario {
 		{"walk-delete", []SOp{add("a/k", 1), add("b/z", 2), add("c/k", 3), {K: "walk"}, del("*/k"), add("d/k", 4)}, []int{0, 0, 1, 1, 2, 2}, 80, 1000},
 		{"walksorted-delcond", []SOp{add("a/x", 1), add("a/y", 2), add("b", 3), {K: "walksorted"}, {K: "delcond", P: P("a")}, {K: "walk"}}, []int{0, 0, 1, 1, 2, 2}, 80, 1000},
 		{"query-delete-glob", []SOp{add("a/k", 1), add("b/z", 2), add("c/k", 3), qry("*/*"), del("*/k"), qry("")}, []int{0, 0, 1, 1, 2, 2}, 80, 1000},
+		{"walk-walkdel", []SOp{add("a/k", 1), add("b/z", 2), add("c/k", 3), {K: "walksorted"}, {K: "walkdel", P: P("*/k")}, {K: "walk"}}, []int{0, 0, 1, 1, 2, 2}, 80, 1000},
+		{"query-walkdel", []SOp{add("a/b", 1), add("a/c", 2), qry("a/*"), {K: "walkdel", P: P("a")}, add("a/d", 3), get("a/c")}, []int{0, 0, 1, 1}, 60, 1000},
 		{"walkerr-delete", []SOp{add("a/k", 1), add("b/k", 2), {K: "walksortederr", V: 1}, del("*"), {K: "walkerr", V: 0}, add("c", 3)}, []int{0, 0, 1, 1}, 80, 1000},
 		// the same interactions four and five levels down (lock coupling must not depend on depth)
 		{"deep-hold-get", []SOp{add("a/b/c/d", 1), hold("a/b/c/d", 5), get("a/b/c/d"), del("a/b"), add("a/b/c/d", 7)}, []int{0, 0}, 60, 1000},
 		{"deep-upgrade", []SOp{add("a/b/c/x/y", 1), add("a/b/c/z/w", 2), add("a/b/c/x/v", 3), del("a/b/c/x")}, nil, 80, 2000},
 		{"deep-query-park", []SOp{add("a/b/c/d", 1), add("a/b/c/e", 2), qry("a/b/*/d"), del("a/*/c"), add("a/b/c/f/g", 3)}, []int{0, 0, 1, 1}, 60, 1000},
+		// a Delete with a glob in the middle, blocked on a held leaf below it: every
+		// node it has passed must be write-locked (also the ones reached through the glob)
+		{"hold-delete-midglob", []SOp{add("a/k", 1), add("b/k", 2), hold("a/k", 5), del("*/k"), get("b/k")}, []int{0, 0, 1, 1}, 60, 1000},
+		{"hold-delete-deepglob", []SOp{add("a/x/k", 1), add("a/y/k", 2), hold("a/y/k", 5), del("a/*/k"), hold("a/x/k", 6)}, []int{0, 0, 1, 1}, 60, 1000},
 		{"two-holds-get", []SOp{add("a/b", 1), hold("a/b", 5), get("a/b"), del("a"), hold("a/b", 6)}, []int{0, 0}, 60, 2000},
 		{"hold-get-add", []SOp{add("a/b", 1), add("a/c", 2), hold("a/b", 5), get("a/b"), add("a/b", 7), get("a/c"), del("a/b")}, []int{0, 0, 1, 1}, 80, 3000},
 		{"two-deleters", []SOp{add("a/b", 1), add("a/c/d", 2), del("a/b"), del("a"), add("a/c/e", 3)}, []int{0, 0}, 80, 3000},
@@ -620,7 +626,7 @@ func main() {
 	}
 
 	meta := vh.NewMeta("forced schedules (mode S): per scenario every schedule (depth-first, capped) of starting/releasing workers parked at add:upgrade, in a Query visitor or inside a paused Leaf.Update, plus random schedules of random programs; distinct = distinct (program, executed schedule), non-trivial = at some observation at least two workers were in flight (parked or blocked). free-running windows (mode A): 2..16 goroutines, <=8 operations per window on 8 overlapping leaf paths; distinct = distinct recorded history, non-trivial = two operations of different goroutines overlap in time and one of them writes")
-	e := &emitter{dir: o.Out, cf: vh.NewCaseFile(), meta: meta, limit: 400}
+	e := &emitter{dir: o.Out, cf: vh.NewCaseFile(), meta: meta, limit: 250}
 
 	if o.Replay != "" {
 		e.replayCases("replay", readCases(o.Replay), o.Out)
